@@ -171,3 +171,44 @@ def gap_iter_exact(repo: Repo, L: Ledger, rule: str):
     q2 = opaque("fdiv", G + B - 1, B)
     ok = lo == Lin.const(0) and step == Lin.const(1) and (hi == q + 1 or hi == q2)
     L.check(ok, rule, g.short + ":range", "i = 0 … ⌈length/B⌉ − 1 (or one extra empty chunk)", f"gap chunk index runs over range({lo}, {hi}, {step}); expected range(0, 1 + length//B) (or ceil(length/B))", g.loc())
+
+
+def to_scaffold_orientation(repo: Repo, L: Ledger, rule: str):
+    from ..util import paths
+    ovr = repo.cls("OverlapResult")
+    ts = ovr.methods.get("to_scaffold")
+    if ts is None:
+        raise AnalysisError("anchor OverlapResult.to_scaffold vanished")
+    ok6, why6 = True, ""
+    seen = {True: 0, False: 0}
+    for p in paths(ts, (0, 1), exc_edges=False):
+        strand_true = None
+        for e in p.events:
+            if e.kind == "cond":
+                t = norm(e.node).replace(" ", "")
+                if "bait.strand==-1" in t:
+                    strand_true = e.val
+                elif "bait.strand!=-1" in t:
+                    strand_true = not e.val
+                elif "bait.strand==1" in t or "bait.strand>0" in t:
+                    ok6, why6 = False, f"orientation test '{norm(e.node)}' treats unknown strand (0) as reverse"
+                else:
+                    ok6, why6 = False, f"unexpected condition '{norm(e.node)}'"
+        ret = [e.node for e in p.events if e.kind == "return"]
+        if strand_true is None or not ret:
+            ok6, why6 = False, why6 or "a path returns without testing the bait strand"
+            continue
+        rv = ret[0].value
+        reverses = isinstance(rv, ast.Call) and isinstance(rv.func, ast.Attribute) and rv.func.attr == "reverse"
+        seen[strand_true] += 1
+        if reverses != strand_true:
+            ok6, why6 = False, f"bait strand == -1 is {strand_true} but the result is {'reversed' if reverses else 'not reversed'}"
+    if ok6 and not (seen[True] and seen[False]):
+        ok6, why6 = False, "both orientations are not handled"
+    L.check(ok6, rule, ts.short, "reversed exactly when the bait is on the minus strand", why6, ts.loc())
+    # built from all rows
+    ctor = [n for n in walk_shallow(ts.node) if isinstance(n, ast.Call) and dotted(n.func) == "Scaffold"]
+    ok6b = len(ctor) == 1 and any(norm(a) == "self.rows" for a in [*ctor[0].args, *[k.value for k in ctor[0].keywords]])
+    L.check(ok6b, rule, ts.short + ":rows", "scaffold built from all rows of the result", "to_scaffold does not pass all rows of the overlap result", ts.loc())
+
+
